@@ -32,7 +32,9 @@ type Job struct {
 	Obs      int    `json:"obs"`
 	Prefix   []Op   `json:"prefix"`
 	Alphabet []Op   `json:"alphabet"`
+	Levels   [][]Op `json:"levels"` // explore: alphabet per position (overrides alphabet/depth)
 	Depth    int    `json:"depth"`
+	NoKeyUpd bool   `json:"nokeyupd"` // generators: no UpdateCurrentKey / UpdateCurrentItem calls
 	Program  []Op   `json:"program"`
 	BlackBox bool   `json:"blackbox"`
 	Probes   int    `json:"probes"`
@@ -110,6 +112,7 @@ func (j Job) dom() keyDom {
 
 func runJob(j Job, s *sink) {
 	r := rand.New(rand.NewSource(j.Seed))
+	noKeyUpd = j.NoKeyUpd
 	obs := j.Obs
 	if obs == 0 {
 		obs = 1
@@ -176,7 +179,13 @@ func runJob(j Job, s *sink) {
 		t.Observe()
 		s.end(t)
 	case "explore":
-		idx := make([]int, j.Depth)
+		levels := j.Levels
+		if len(levels) == 0 {
+			for i := 0; i < j.Depth; i++ {
+				levels = append(levels, j.Alphabet)
+			}
+		}
+		idx := make([]int, len(levels))
 		n := 0
 		for {
 			s.start(j.Family, fmt.Sprintf("%s/%d", j.Name, n))
@@ -185,8 +194,8 @@ func runJob(j Job, s *sink) {
 				t.Do(op)
 			}
 			t.Observe()
-			for _, a := range idx {
-				op := j.Alphabet[a]
+			for lv, a := range idx {
+				op := levels[lv][a]
 				if op.V == "" {
 					op.V = fmt.Sprintf("x%d", t.nops)
 				}
@@ -196,10 +205,10 @@ func runJob(j Job, s *sink) {
 			s.end(t)
 			n++
 			// next sequence
-			p := j.Depth - 1
+			p := len(levels) - 1
 			for p >= 0 {
 				idx[p]++
-				if idx[p] < len(j.Alphabet) {
+				if idx[p] < len(levels[p]) {
 					break
 				}
 				idx[p] = 0
